@@ -20,6 +20,7 @@ type node struct {
 	//             containers over any: slice,gomap,array,list,set,stack,queue,catalog,map,assoc
 	//             typed containers: ints ([]int), strs ([]string), flts ([]float64), msi (map[string]int), lint (List[int]), sstr (Set[string]), iis ([][]int)
 	//             msa (map[string]any), mapsa (Map[string, any]): typed keys, values under any (nil values allowed)
+	//             pk (a fresh pointer *PK to struct{X}; prim = X), pkmap (map[*PK]any): collatekeys.go
 	//             nilslice ([]any(nil)), nilmap (map[any]any(nil)), cyc (self-containing List[any], depth in prim)
 	prim any
 	kids []*node
@@ -83,6 +84,8 @@ func genLeaf(r *rng, kind string, allowNaN bool) *node {
 		n.prim = complex(parts[r.intn(len(parts))], parts[r.intn(len(parts))])
 	case "string":
 		n.prim = stringBounds[r.intn(len(stringBounds))]
+	case "pk":
+		n.prim = int64(r.intn(8)) // the pointee of a fresh pointer key (collatekeys.go)
 	}
 	return n
 }
@@ -93,7 +96,7 @@ var typedContainers = []string{"ints", "strs", "flts", "msi", "lint", "sstr", "i
 // kinds that are key/value collections (keys in kids, values in vals); msa = map[string]any, mapsa = Map[string, any]
 func isMapKind(k string) bool {
 	switch k {
-	case "gomap", "map", "catalog", "msi", "msa", "mapsa":
+	case "gomap", "map", "catalog", "msi", "msa", "mapsa", "pkmap":
 		return true
 	}
 	return false
@@ -274,6 +277,14 @@ func build(n *node, r *rng) any {
 	switch n.kind {
 	case "nil":
 		return nil
+	case "pk":
+		return newPK(int(n.prim.(int64))) // a fresh pointer each time the value is built
+	case "pkmap":
+		m := map[*PK]any{}
+		for _, i := range order(len(n.kids)) {
+			m[build(n.kids[i], r).(*PK)] = build(n.vals[i], r)
+		}
+		return m
 	case "bool", "string":
 		return n.prim
 	case "int":
@@ -414,7 +425,7 @@ func build(n *node, r *rng) any {
 
 func hasMap(n *node) bool {
 	switch n.kind {
-	case "gomap", "map", "msi", "msa", "mapsa":
+	case "gomap", "map", "msi", "msa", "mapsa", "pkmap":
 		return true
 	}
 	for _, k := range n.kids {
@@ -492,7 +503,7 @@ func mutate(r *rng, n *node, o genOpts) (*node, string, bool) {
 	for try := 0; try < 20; try++ {
 		x := all[r.intn(len(all))]
 		switch {
-		case len(x.kids) == 0 && x.prim != nil && x.kind != "cyc":
+		case len(x.kids) == 0 && x.prim != nil && x.kind != "cyc" && x.kind != "pk":
 			// change one leaf to a different value of the same kind: half of the time to an
 			// immediate neighbour (next integer, next float, one byte more), where a lossy
 			// comparison (through a narrower or a floating type, a hash, a prefix) would not tell them apart
@@ -725,16 +736,20 @@ func genCollate(prop string, seed uint64, tier, outDir string, count int) error 
 					na, nb, note, nilEqual = genNeighbourFamily(r) // adjacent leaves, where a lossy comparison merges; extremes
 				case d < 3:
 					na, nb, note = genCrossKind(r) // leaves of different kinds that a conversion to the first one's width confuses
+				case d < 5:
+					na, nb, note, relation = genKeyIdentity(r, maximum) // keys that rank Equal but are not the same Go map key
 				default:
 					na, nb, note, nilEqual = genNilFamily(r)
 				}
 				nilFamily = true
-				relation = "differ"
-				if nilEqual {
-					relation = "equal"
-				}
-				if strings.HasPrefix(note, "crosskind") {
-					relation = "unknown"
+				if !strings.HasPrefix(note, "keyident") {
+					relation = "differ"
+					if nilEqual {
+						relation = "equal"
+					}
+					if strings.HasPrefix(note, "crosskind") {
+						relation = "unknown"
+					}
 				}
 			case x < 3:
 				nb = cloneNode(na) // independently rebuilt copy (maps in another insertion order)
@@ -881,7 +896,7 @@ func genCollate(prop string, seed uint64, tier, outDir string, count int) error 
 	meta.Cases = len(cases)
 	meta.Extra["predicate_violations"] = predViol
 	meta.Extra["cases_violating_the_property_predicates_on_the_implementation"] = len(predViol)
-	meta.Rule = "each case is one collator (maximum 16 or 1..4) and 1..6 value pairs from the structured universe (all leaf kinds with boundary values, any-containers and typed containers nested to depth 3): random same-shape pairs, independently rebuilt copies (maps inserted in another order), single-point mutations (leaf, add, remove, swap, rename key - preferring a key whose value is nil -, nil to a defined/zero value), the nil family (a fifth of the pairs: maps map[any]any / map[string]any / Map[any,any] / Map[string,any] / Catalog with a nil-valued entry against the copy, the nil-valued key renamed, the nil moved to another key, the nil replaced by a defined or zero value, renamed and defined, the entry dropped, a nil entry added; sequences differing only in nil vs 0 / \"\" / false / 0.0 / nil slice / nil map or in the position or number of nils; associations with a nil value; each also nested one or two levels; and, one directed pair in five, two adjacent leaves - 2^53 / 2^53+1, MaxInt64-1 / MaxInt64, adjacent floats, a string plus one NUL byte, or two integers whose difference overflows (MinInt64 against a positive number), or two leaves of different kinds (a byte against a wider unsigned value beyond 255, a narrow integer against a wider one beyond its range, float32 against float64) - alone or nested; for all directed pairs both RankValues and CompareValues in both orders, with what the generator knows about them - copy equal, difference unequal - checked on the answers) and, for C08, self-containing lists (depth 1..3, with siblings); every pair is called in both argument orders; a case is distinct when its call/result trace differs from every other; independently of the model the properties' own statements are evaluated on the real collator's answers (predicate_violations): for every pair reflexivity of RankValues and CompareValues, the mirror law, symmetry, the natural order the property names (nil first, false<true, numeric, byte-wise strings, proper prefix first), and Compare <=> Rank Equal for pairs without mixed integer/float widths; per case transitivity of both on all ordered triples of a pool of up to 6 values (the first two pairs and mutated neighbours of them); and the first question of the case asked again after all other calls on the same collator"
+	meta.Rule = "each case is one collator (maximum 16 or 1..4) and 1..6 value pairs from the structured universe (all leaf kinds with boundary values, any-containers and typed containers nested to depth 3): random same-shape pairs, independently rebuilt copies (maps inserted in another order), single-point mutations (leaf, add, remove, swap, rename key - preferring a key whose value is nil -, nil to a defined/zero value), the nil family (a fifth of the pairs: maps map[any]any / map[string]any / Map[any,any] / Map[string,any] / Catalog with a nil-valued entry against the copy, the nil-valued key renamed, the nil moved to another key, the nil replaced by a defined or zero value, renamed and defined, the entry dropped, a nil entry added; sequences differing only in nil vs 0 / \"\" / false / 0.0 / nil slice / nil map or in the position or number of nils; associations with a nil value; each also nested one or two levels; and, one directed pair in five, two adjacent leaves - 2^53 / 2^53+1, MaxInt64-1 / MaxInt64, adjacent floats, a string plus one NUL byte, or two integers whose difference overflows (MinInt64 against a positive number), or two leaves of different kinds (a byte against a wider unsigned value beyond 255, a narrow integer against a wider one beyond its range, float32 against float64) - alone or nested; and, two directed pairs in ten, two maps whose corresponding keys rank Equal without being the same Go map key (pointer keys *PK to equal values in map[*PK]any / map[any]any / Map / Catalog built independently twice; any-keys that differ only in dynamic width, int(1) / int64(1); one List key with equal contents), with the same values (RankValues must be Equal both ways) or one value changed; for all directed pairs both RankValues and CompareValues in both orders, with what the generator knows about them - copy equal, difference unequal - checked on the answers) and, for C08, self-containing lists (depth 1..3, with siblings); every pair is called in both argument orders; a case is distinct when its call/result trace differs from every other; independently of the model the properties' own statements are evaluated on the real collator's answers (predicate_violations): for every pair reflexivity of RankValues and CompareValues, the mirror law, symmetry, the natural order the property names (nil first, false<true, numeric, byte-wise strings, proper prefix first), and Compare <=> Rank Equal for pairs without mixed integer/float widths; per case transitivity of both on all ordered triples of a pool of up to 6 values (the first two pairs and mutated neighbours of them); and the first question of the case asked again after all other calls on the same collator"
 	for i := 0; i < 3 && i < len(cases); i++ {
 		meta.Samples = append(meta.Samples, meta.Traces[i*len(cases)/3])
 	}
@@ -1030,7 +1045,7 @@ func neighbourLeaf(r *rng, x *node) *node {
 // every typed container kind is a family of its own, the containers over `any` of one coarse type share one
 func elemTyping(k string) string {
 	switch k {
-	case "ints", "strs", "flts", "iis", "msi", "lint", "sstr", "msa", "mapsa":
+	case "ints", "strs", "flts", "iis", "msi", "lint", "sstr", "msa", "mapsa", "pkmap":
 		return "typed:" + k
 	}
 	return "any"
@@ -1041,7 +1056,7 @@ func coarse(k string) string {
 	switch k {
 	case "slice", "nilslice", "ints", "strs", "flts", "iis":
 		return "array"
-	case "gomap", "nilmap", "msi", "msa", "mapsa":
+	case "gomap", "nilmap", "msi", "msa", "mapsa", "pkmap":
 		return "map"
 	case "lint":
 		return "list"
